@@ -36,6 +36,7 @@ type Bounds struct {
 	ExpectPanic  string         `json:"expect_panic"`
 	NoIfConv     bool           `json:"no_ifconv"`
 	TimeMode     string         `json:"time_mode"`
+	SchedMode    string         `json:"sched_mode"` // "" = preemption bounding, "delay" = delay bounding
 	MaxTimerFires int           `json:"max_timer_fires"`
 }
 
